@@ -137,6 +137,19 @@ func ruleC17(c *Ctx) {
 
 	inputsUnmodified(c, "C17-R5", spT)
 	providerUnmodifiedPaths(c, "C17-R6", spT)
+	c.rule("C17-R8", "every call gets the signing context: each return of SigningContext hands back a value the path knows to be non-nil (the cached one after a nil test of that very value, or the one just created) — a stale local returned after the re-check under the write lock is nil for the goroutine that lost the first-use race")
+	if sc := c.kernel("(*SAMLServiceProvider).SigningContext", "*"); sc != nil {
+		n := 0
+		for _, t := range sc.Terms {
+			if t.Kind != "return" || len(t.Vals) != 1 {
+				continue
+			}
+			n++
+			c.check(t.nonNil(t.Vals[0]) || contractNonNilVal(t, t.Vals[0]), "C17-R8", shortFn(sc.Root), "returned context is non-nil", c.P.InstrPos(t.Instr), "non-nil on the path", "SigningContext returns "+ap(t.Vals[0])+", which this path does not know to be non-nil (it may be the stale nil read before the lock was taken)")
+		}
+		c.count("C17-R8/returns", n)
+		c.floor("C17-R8/returns", 2)
+	}
 	c.rule("C17-R7", "results do not share nodes with inputs: each Sign* builds the returned element entirely from its own copy of the argument (shared signPlacement, also C13-R1 / C15-R5) — children taken from the caller's element would make later edits of the result rewrite the input")
 	signPlacement(c, "C17-R7")
 	// package-level variables, who-may-touch, lockset, by-value copies
@@ -1077,4 +1090,28 @@ func returnsViaParam(fn *ssa.Function, seen map[*ssa.Function]bool) (int, bool) 
 		}
 	}
 	return 0, false
+}
+
+// contractNonNilVal: a call result that its contract makes non-nil (always, or when its error is nil on this path).
+func contractNonNilVal(t *Terminal, v Val) bool {
+	cv, ok := v.(*CallV)
+	if !ok {
+		return false
+	}
+	if contractNonNil(cv) {
+		return true
+	}
+	ct := lookupContract(cv.Callee)
+	if ct == nil || cv.N < 2 {
+		return false
+	}
+	for _, i := range ct.OkNonNil {
+		if i == cv.Idx {
+			errV := mkCall(cv.Callee, cv.Fn, cv.Args, cv.Site, cv.N-1, cv.N, nil)
+			if isNil, known := t.eqFact(errV, nilOf(nil)); known && isNil {
+				return true
+			}
+		}
+	}
+	return false
 }
